@@ -304,3 +304,4 @@ def run(ctx):
     boundaries.check_amounts(ctx, 'C07.RA', 'C07')
     boundaries.check_writes(ctx, 'C07.RW', 'C07')
     boundaries.check_calls(ctx, 'C07.RC', 'C07')
+    boundaries.check_guards(ctx, 'C07.RG', 'C07')
